@@ -141,7 +141,42 @@ func c09Meta(cx *Ctx, key []byte, std *regexp.Regexp, re *coregex.Regex, posix b
 			}
 		}
 	}
-	w.C["evaluations"] += 3
+	// UnmarshalText overwrites the receiver whatever it held before (package regexp always compiles the text with
+	// Compile): receivers that were a POSIX value and a Longest() value must end up behaving like a fresh Compile
+	rp, sp2 := coregex.MustCompilePOSIX("x+"), regexp.MustCompilePOSIX("x+")
+	rl, sl := coregex.MustCompile("x|xy"), regexp.MustCompile("x|xy")
+	rl.Longest()
+	sl.Longest()
+	for _, rc := range []struct {
+		name string
+		c    *coregex.Regex
+		s    *regexp.Regexp
+	}{{"posix", rp, sp2}, {"longest", rl, sl}} {
+		cerr, serr := rc.c.UnmarshalText(mt), rc.s.UnmarshalText(smt)
+		if errText(serr) != errText(cerr) {
+			cx.Fail("UnmarshalText-onto", key, "receiver="+rc.name, errText(serr), errText(cerr))
+			continue
+		}
+		if cerr != nil {
+			continue
+		}
+		if rc.c.String() != rc.s.String() {
+			cx.Fail("UnmarshalText-onto-String", key, "receiver="+rc.name, rc.s.String(), rc.c.String())
+		}
+		lp, lc := rc.c.LiteralPrefix()
+		wp, wc := re.LiteralPrefix()
+		if lp != wp || lc != wc {
+			cx.Fail("UnmarshalText-onto-LiteralPrefix", key, "receiver="+rc.name, fmt.Sprintf("%q,%v", wp, wc), fmt.Sprintf("%q,%v", lp, lc))
+		}
+		for _, h := range c09Hays {
+			a, b := re.FindStringSubmatchIndex(h), rc.c.FindStringSubmatchIndex(h)
+			// the std twin says whether the receiver's old mode may survive: it must answer like a fresh std value
+			if eqInts(std.FindStringSubmatchIndex(h), rc.s.FindStringSubmatchIndex(h)) && !eqInts(a, b) {
+				cx.Fail("UnmarshalText-onto-behaviour", key, "receiver="+rc.name+" h="+strconv.Quote(h), a, b)
+			}
+		}
+	}
+	w.C["evaluations"] += 3 + 2*int64(3+len(c09Hays))
 }
 
 func c09Quote(w *harness.W, s string) {
@@ -190,6 +225,11 @@ func c09Families(thorough bool) []c09Family {
 		{"nest-noncapture", depth, func(n int) string { return strings.Repeat("(?:", n) + "a" + strings.Repeat(")", n) }},
 		{"nest-flag", depth, func(n int) string { return strings.Repeat("(?i:", n) + "a" + strings.Repeat(")", n) }},
 		{"nest-star", 300, func(n int) string { return strings.Repeat("(?:", n) + "a" + strings.Repeat(")*", n) }},
+		// bounded repetition costs the NFA compiler more than one frame per nesting level
+		{"nest-opt-noncapture", depth, func(n int) string { return strings.Repeat("(?:", n) + "a" + strings.Repeat("){0,1}", n) }},
+		{"nest-opt-capture", depth, func(n int) string { return strings.Repeat("(", n) + "a" + strings.Repeat("){0,1}", n) }},
+		{"nest-quest", depth, func(n int) string { return strings.Repeat("(?:", n) + "a" + strings.Repeat(")?", n) }},
+		{"nest-range", 300, func(n int) string { return strings.Repeat("(?:", n) + "a" + strings.Repeat("){1,2}", n) }},
 		{"repeat", rep, func(n int) string { return fmt.Sprintf("a{%d}", n) }},
 		{"repeat-range", rep, func(n int) string { return fmt.Sprintf("a{%d,%d}", n/2, n) }},
 		{"repeat-open", rep, func(n int) string { return fmt.Sprintf("a{%d,}", n) }},
@@ -232,7 +272,7 @@ func C09Plan(tier string) *harness.Plan {
 	l20, l28 := 4, 3
 	budget := 150 * time.Second
 	if thorough {
-		l20, l28, budget = 5, 4, 40*time.Minute
+		l20, l28, budget = 5, 4, 25*time.Minute
 	}
 	syms28 := append(append([]string{}, c09Syms...), c09Esc...)
 	pow := func(b, e int) int {
